@@ -216,7 +216,7 @@ def run(pid, tier):
     docs = [("family/" + k, v) for k, v in FAMILIES.items()] + [("extra/" + k, v) for k, v in EXTRA.items() if b"pyml" not in v]
     ncor, ngen = (60, 60) if tier == "quick" else (656, 600)
     docs += [(os.path.relpath(p, impl.REPO), corpus.read(p)) for p in corpus.sample(corpus.rule_docs(), ncor, seed())]
-    docs += [(n, t.encode("utf-8")) for n, t in docgen.documents(ngen, seed())]
+    docs += [(n, t.encode("utf-8")) for n, t in docgen.documents(ngen, seed(), pool=600)]     # thorough: the whole sub-pool gen/0..599
     jobs = []
     for name, data in docs:
         fam = name.startswith(("family/", "extra/"))
